@@ -28,8 +28,10 @@ pub fn generate_c16(seed: u64, thorough: bool, known: &HashSet<String>) -> Trace
 /// after an acknowledged flush is sensitive to).
 pub fn generate_c16_profile(seed: u64, thorough: bool, known: &HashSet<String>, flush_heavy: bool) -> Trace {
     let mut rng = Prng::new(seed);
+    // (depth 20 was tried in the thorough tier: one history enumerates ~500 failure positions, each with a reopen and a full
+    // comparison, and took more than half an hour - the wall-clock cap only acts between histories)
     let depth = if thorough && rng.chance(1, 40) {
-        20
+        *rng.pick(&[8usize, 10])
     } else {
         [1usize, 2, 2, 3, 3, 3, 4, 4, 5, 6][rng.usize_below(10)]
     };
